@@ -8,6 +8,7 @@ import (
 	"io"
 	"log/slog"
 	"math"
+	"net"
 	"strings"
 	"sync"
 	"sync/atomic"
@@ -673,6 +674,24 @@ func runMulti(cases []*caseT, schedule []int, free bool) []*obsT {
 			obs[i].hang = true
 		}
 	}
+	// classes named "listener…": the connections come in through the real accept loop, Server.Serve
+	// on an in-memory listener that hands them out back to back (a connection burst)
+	viaListener := free && strings.HasPrefix(cases[0].class, "listener")
+	if viaListener {
+		lst := &burstListener{conns: conns, closed: make(chan struct{})}
+		serveDone := make(chan error, 1)
+		go func() { serveDone <- srv.Serve(lst) }()
+		for i := range started {
+			started[i] = true
+		}
+		defer func() {
+			srv.Close()
+			select {
+			case <-serveDone:
+			case <-time.After(idleTimeout):
+			}
+		}()
+	}
 	if free {
 		for i := range cases {
 			start(i)
@@ -760,6 +779,30 @@ func runMulti(cases []*caseT, schedule []int, free bool) []*obsT {
 	}
 	return obs
 }
+
+// burstListener hands out the prepared connections without waiting in between, then blocks until closed
+type burstListener struct {
+	mu     sync.Mutex
+	conns  []*memConn
+	next   int
+	closed chan struct{}
+	once   sync.Once
+}
+
+func (l *burstListener) Accept() (net.Conn, error) {
+	l.mu.Lock()
+	if l.next < len(l.conns) {
+		c := l.conns[l.next]
+		l.next++
+		l.mu.Unlock()
+		return c, nil
+	}
+	l.mu.Unlock()
+	<-l.closed
+	return nil, net.ErrClosed
+}
+func (l *burstListener) Close() error   { l.once.Do(func() { close(l.closed) }); return nil }
+func (l *burstListener) Addr() net.Addr { return memAddr("burst-listener") }
 
 func isSSLRequest(raw []byte) bool {
 	return len(raw) >= 8 && raw[0] == 0 && raw[1] == 0 && raw[2] == 0 && raw[3] == 8 && raw[4] == 0x04 && raw[5] == 0xd2 && raw[6] == 0x16 && raw[7] == 0x2f
